@@ -135,8 +135,8 @@ static ClockwaitFn realClockwait()
   return f;
 }
 
-// the wait of a helper thread: real slices; back to the caller (which re-evaluates predicate and clock) when the service notifies,
-// when the op thread asks for it (`settle`), or at teardown
+// the wait of a helper thread: real slices; back to the caller (which re-evaluates predicate and clock) when the op thread asks for
+// it (`settle`, after every op), or at teardown
 static int waiterWait(pthread_cond_t* c, pthread_mutex_t* m)
 {
   Waiter* w = t_w;
@@ -155,11 +155,8 @@ static int waiterWait(pthread_cond_t* c, pthread_mutex_t* m)
     int rc = realClockwait()(c, m, CLOCK_MONOTONIC, &ts);
     std::lock_guard<std::mutex> lk(g_m);
     ++g_slices;
-    if (rc == 0)
-    {
-      w->blocked = false;
-      return 0;
-    }
+    (void)rc;   // a notification from the service is not acted upon at once (the thread is merely slow to run): the re-evaluation
+                // happens at the next op boundary, where `settle` asks for it - otherwise it would race the loop thread's own progress
     if (w->abort || w->req > w->ack)
     {
       t_pending_ack = w->req;
